@@ -200,6 +200,7 @@ class Ctx:
         self.samples = []
         self.violations = []
         self.harness_errors = []
+        self.fallback = None      # replay(model_reader) used when the symbolic run raises outside any explored path
         self.validated = 0
         self.paths = 0
         self.decisions = 0
@@ -258,6 +259,8 @@ class Ctx:
         """One obligation: hyps + axioms(cone) + not goal  must be `expect`.
         replay(model_values: dict) -> (reproduced: bool, detail: dict) for unexpected sat."""
         full = "%s/%s" % (self.case, name)
+        if replay is not None and kind == "property":
+            self.fallback = replay       # the most recent replay also serves if the symbolic run raises later on
         hyps = list(hyps) + list(extra_axioms)
         ax = core.axioms_for([goal] + hyps) if axioms else []
         asserts = hyps + ax + [z3.Not(goal)]
@@ -404,7 +407,7 @@ class _ModelReader:
 
     def __call__(self, t, as_float=True):
         if self.m is None:
-            raise ValueError("no model (solver verdict was unknown)")
+            self.m = _GenericModel()
         import numpy
         if isinstance(t, numpy.ndarray):
             out = numpy.empty(t.shape, dtype=complex)
@@ -428,9 +431,38 @@ class _ModelReader:
         return _mv(self.m, t)
 
 
+class _GenericModel:
+    """stands in for a solver model when there is none (verdict unknown, or the symbolic run raised before any query):
+    every free constant gets a fixed generic positive value (distinct per name), uninterpreted functions whatever the
+    solver's model completion gives"""
+
+    def __init__(self):
+        self.cache = {}
+
+    def value_of(self, t):
+        import hashlib
+        names = set()
+        core._consts(t, names)
+        s = z3.Solver()
+        for nm in sorted(names):
+            if nm not in self.cache:
+                h = int(hashlib.md5(nm.encode()).hexdigest()[:6], 16)
+                self.cache[nm] = Fr(3, 4) + Fr(h % 997, 1000)
+            s.add(z3.Real(nm) == z3.RealVal(str(self.cache[nm])))
+        if s.check() != z3.sat:
+            raise ValueError("no generic value")
+        return model_value(s.model(), t)
+
+
 def _mv(m, t):
     if isinstance(t, Fr):
         return t
+    if isinstance(m, _GenericModel):
+        if isinstance(t, core.Sym):
+            t = t.re
+            if isinstance(t, Fr):
+                return t
+        return m.value_of(t)
     if isinstance(t, core.Sym):
         t = t.re
         if isinstance(t, Fr):
@@ -629,6 +661,28 @@ def _worker(fn, pid, name, tier, kwargs, conn, soft_limit=None):
         msg = "%s: %s" % (type(e).__name__, e)
         if ctx is not None and isinstance(e, CaseBudget):
             ctx.inconclusive.append("%s: case time budget reached; the remaining obligations of this case were not decided" % name)
+            try:
+                conn.send(("ok", ctx.result()))
+            except Exception:
+                conn.send(("error", msg))
+        elif ctx is not None and getattr(ctx, "fallback", None) is not None and not isinstance(e, (KeyboardInterrupt, SystemExit, MemoryError)):
+            # the code under test (or the encoding) raised outside any explored path: ask the real code, on generic inputs
+            full = "%s/raises %s before any obligation" % (name, type(e).__name__)
+            try:
+                from . import npx
+                with npx.real_code():
+                    ok, detail = ctx.fallback(_ModelReader(None))
+            except Exception as e2:
+                if (type(e2).__name__ == type(e).__name__ or ("pristine" in str(e2) and type(e).__name__ + ":" in str(e2))) and not _encoding_limit(e2):
+                    # the replay drives the real code: it fails there with the same exception as in the symbolic run
+                    ok, detail = True, dict(what="the real code raises %s: %s (generic inputs)" % (type(e2).__name__, str(e2)[:200]))
+                else:
+                    ok, detail = False, dict(replay_error="%s: %s" % (type(e2).__name__, e2))
+            if ok:
+                ctx.records.append(dict(name=full, kind="property", verdict="sat", expect="unsat", note="symbolic run raised %s; violation established by the replay on the real code" % msg[:200], replay=_jsonable(detail)))
+                ctx.violations.append(dict(obligation=full, witness={}, replay=_jsonable(detail), known=False))
+            else:
+                ctx.inconclusive.append("%s: the symbolic run raised %s and the real code passes the replay on generic inputs: not decided" % (name, msg[:200]))
             try:
                 conn.send(("ok", ctx.result()))
             except Exception:
